@@ -1361,8 +1361,24 @@ impl ReceiverInner<ReceiverLink<Target>> {
         #[cfg(feature = "log")]
         log::debug!("exchange = {:?}", exchange);
 
-        let credit = self.link.flow_state.link_credit();
-        self.set_credit(credit).await?;
+        // Issue credit on the new attachment according to the credit policy, without changing
+        // the policy: the whole window in automatic mode (the new attachment starts at the
+        // sender's new initial-delivery-count with nothing outstanding), what was left in manual
+        // mode
+        let credit = match self.credit_mode {
+            CreditMode::Auto(max_credit) => max_credit,
+            CreditMode::Manual => self.link.flow_state.link_credit(),
+        };
+        self.processed.store(0, Ordering::Release);
+        endpoint::ReceiverLink::send_flow(
+            &self.link,
+            &self.outgoing,
+            Some(credit),
+            Some(false),
+            false,
+            false,
+        )
+        .await?;
 
         Ok(exchange)
     }
